@@ -67,4 +67,38 @@ theorem clear_empties (t : Table) (avg : Bool) (mh : Option Int) :
     step t .clear = [] ∧ getTrace (step t .clear) avg mh = [] := by
   exact ⟨rfl, rfl⟩
 
+/-! ### re-entrant calls (recursion, callbacks): every invocation measures its own duration -/
+
+/-- **refinement, every event sequence**: the wrapper's clock arithmetic (one start reading per
+    active invocation, sample = clock at return − own start reading) records exactly what the
+    clock-free specification records, in which every active invocation accumulates the time that
+    passes while it is active — however deeply and in whatever pattern traced calls nest, including a
+    function that re-enters itself -/
+theorem nested_refines (evs : List Ev) (t : Table) :
+    (nrun { table := t } evs).table = (srun { table := t } evs).table ∧
+    (nrun { table := t } evs).stack.map (·.1) = (srun { table := t } evs).stack.map (·.1) := by
+  have h := absN_run evs { table := t }
+  have h0 : absN ({ table := t } : NState) = ({ table := t } : SState) := by simp [absN]
+  rw [h0] at h
+  rw [← h]
+  simp [absN, List.map_map, Function.comp_def]
+
+/-- a plain (non-nested) call is the special case the flat model `step` describes -/
+theorem flat_is_special_case (t : Table) (name : String) (dt : Rat) :
+    (nrun { table := t } [.enter name, .tick dt, .leave]).table = step t (.call name dt false) := by
+  simp [nrun, nstep, step]
+
+/-- **recursion**: `f` re-entering itself after `a`, the inner call lasting `b`, and returning `c`
+    later records `b` for the inner and `a + b + c` for the outer invocation, in that order (a shared
+    start field would record `b` and `b + c`) -/
+theorem recursion_two_levels (t : Table) (f : String) (a b c : Rat) :
+    (nrun { table := t } [.enter f, .tick a, .enter f, .tick b, .leave, .tick c, .leave]).table
+      = record (record t f b) f (a + b + c) := by
+  simp [nrun, nstep]
+
+/-- a chain of nested calls is exactly the event sequence the driver runs for the harness's
+    re-entrant operations: non-vacuity of the above on a three-level chain through two functions -/
+example : (nrun {} (chainEvents ["f", "g", "f"] [1, 2] [4, 8, 16])).table = [("f", [4, 1 + 2 + 4 + 8 + 16]), ("g", [2 + 4 + 8])] := by
+  decide +kernel
+
 end KV.C20
